@@ -27,7 +27,7 @@ RULE = ("membership histories of 3-10 Add/AddWithWeight/AddWithReplicas/Remove o
         "pointers, Stringers, the nil interface, typed nil pointers, nil-receiver Stringers, and >= 3 keys that are / point to / "
         "hold a map with 4 entries), several of them with EQUAL representations; every key is looked up before every op (index "
         "order) and after it (reverse order, 3 times in a row, map keys 200 times) with the default murmur3 hash; non-trivial = at least two different "
-        "owners observed and at least one Remove or re-Add of a present node; distinct = distinct canonical case JSON")
+        "owners observed and at least one Remove or re-Add of a present node; distinct = distinct canonical case JSON; 35 % of the histories start with ONE node that is removed / re-weighted / drained before a second node joins; 20 % of the ops are followed by no lookup at all (membership ops back to back); plus, per run: cache / kv configurations loaded from JSON / YAML text with Weight omitted (default 100, 900 keys, equal shares within 60 %), kv multi-key Del of 50 keys over 2 and 3 miniredis shards compared with single-key deletes")
 TRUSTED = ["murmur3 (hash values tabulated by the driver; the model is parametric in the hash and only uses "
            "order/equality of positions, so the encoder rank-compresses the 64-bit values)",
            "strconv / fmt.Sprint texts of scalars and struct values (computed by the generator, compared with the observed "
@@ -145,7 +145,8 @@ ASSUMPTIONS = ["no ring-position collision between virtual nodes (checked per ca
                "dereferences its receiver or has a value receiver) are caller faults and outside the claim: lang.Repr "
                "propagates that panic; in scope: untyped nil, typed nil pointers of non-Stringer types, nil-safe Stringers "
                "with nil receivers, pointers to values, struct values",
-               "share-proportional-to-weight clause is statistical and is checked as a test in the thorough tier only"]
+               "share-proportional-to-weight clause is statistical: a test in the thorough tier, and (equal shares within 60 %, "
+               "observed worst case 32 % over 60 configurations) on the loaded all-default configurations of every run"]
 
 
 def _user_cases(rng, tier):
@@ -162,6 +163,22 @@ def _user_cases(rng, tier):
         for w in (shapes if tier == "thorough" else rng.sample(shapes, 4) + [[100] * 101]) + drained:
             keys = ["user:%d:%d" % (rng.randrange(10 ** 7), i) for i in range(240 if w in drained else 60)]
             out.append({"kind": "dispatch", "pkg": pkg, "weights": w, "keys": keys})
+    # configurations LOADED through the conf loader (JSON / YAML text) with the node Weight omitted: the default is the
+    # documented 100; equally configured nodes get roughly equal shares of 900 keys (60 % of the share, a TEST)
+    for pkg in ("cache", "kv"):
+        fmts = rng.sample(["json", "yaml"], 2)
+        n2 = rng.randint(2, 5)
+        mixed = rng.choice([[None, 50, None], [0, None, None], [None, None, 25, 100], [100, None], [None, 0, None, 1]])
+        for fmt, written in ((fmts[0], [None] * 3), (fmts[1], [None] * n2), (rng.choice(fmts), mixed)):
+            keys = ["acct:%d:%d" % (rng.randrange(10 ** 7), i) for i in range(900)]
+            out.append({"kind": "dispatch", "pkg": pkg, "loaded": fmt, "omit": [w is None for w in written],
+                        "weights": [100 if w is None else w for w in written], "keys": keys,
+                        "balance_tol": 60 if all(w is None for w in written) else 0})
+    # kv multi-key Del over 2-3 shards: 50 keys in ONE call (adjacent keys on different shards), 10 keys to keep
+    for nodes in (2, 3):
+        tag = rng.randrange(10 ** 6)
+        out.append({"kind": "kvdel", "nodes": nodes, "keys": ["order:%d:%d" % (tag, i) for i in range(50)],
+                    "keep": ["keep:%d:%d" % (tag, i) for i in range(10)]})
     data = []
     prefix = bytes(rng.randrange(256) for _ in range(80))
     for ln in [0, 1, 7, 8, 15, 16, 17, 31, 32, 33, 63, 64, 65, 100, 127, 128, 129, 300]:
@@ -172,6 +189,15 @@ def _user_cases(rng, tier):
     return out
 
 
+def _add_op(rng, node):
+    r = rng.random()
+    if r < 0.5:
+        return {"op": "add", "node": node}
+    if r < 0.8:
+        return {"op": "addw", "node": node, "arg": rng.choice([1, 33, 50, 100, 150])}
+    return {"op": "addr", "node": node, "arg": rng.choice([1, 57, 100, 130])}
+
+
 def generate(rng, tier, n):
     cases = _user_cases(rng, tier) if tier != "search" else []
     for _ in range(n):
@@ -180,6 +206,24 @@ def generate(rng, tier, n):
         nops = rng.randint(3, 10)
         present = set()
         ops = []
+        if rng.random() < 0.35:
+            # the FIRST node of the empty ring is removed or re-weighted BEFORE a second node joins
+            a, b = rng.sample(range(8), 2)
+            ops.append(_add_op(rng, a))
+            second = rng.choice(["remove", "addw50", "reweigh", "remove", "addw50", "zero"])
+            if second == "remove":
+                ops.append({"op": "remove", "node": a})
+            elif second == "addw50":
+                ops.append({"op": "addw", "node": a, "arg": 50})
+            elif second == "zero":
+                ops.append(rng.choice([{"op": "addw", "node": a, "arg": 0}, {"op": "addr", "node": a, "arg": 0}]))
+            else:
+                ops.append(_add_op(rng, a))
+            if rng.random() < 0.3:      # ... or even twice
+                ops.append(rng.choice([{"op": "remove", "node": a}, {"op": "addw", "node": a, "arg": rng.choice([1, 33, 50, 100])}]))
+            ops.append(_add_op(rng, b) if rng.random() < 0.7 else {"op": "add", "node": b})
+            for o in ops:
+                (present.discard if o["op"] == "remove" else present.add)(o["node"])
         for _ in range(nops):
             r = rng.random()
             node = rng.randrange(8)
@@ -201,6 +245,9 @@ def generate(rng, tier, n):
         for o in ops:
             if kinds[o["node"]] in POINTER_NODE_KINDS and rng.random() < 0.33:
                 o["fresh"] = True
+        for o in ops[:-1]:
+            if rng.random() < 0.2:          # membership ops back to back: no lookup before the next op
+                o["quiet"] = True
         if present and rng.random() < 0.25:      # removing every node empties the ring
             for node in rng.sample(sorted(present), len(present)):
                 o = {"op": "remove", "node": node}
@@ -227,7 +274,7 @@ def drive(cases, tier):
 
     def grp(c):
         k = c.get("kind", "ring")
-        return c["pkg"] if k == "dispatch" else k
+        return c["pkg"] if k == "dispatch" else ("kv" if k == "kvdel" else k)
     for g, (pkg, run) in groups.items():
         idx = [i for i, c in enumerate(cases) if grp(c) == g]
         if not idx:
@@ -247,6 +294,15 @@ def _optlist(xs):
 
 def encode(case, obs):
     kind = case.get("kind", "ring")
+    if kind == "kvdel":
+        nl = lambda xs: clist([cnat(x) for x in xs])
+        return "CD %s %s %s %s %s %s %s %s %s" % (cnat(len(case["keys"])), cnat(obs["count"]), nl(obs["remaining"]), cbool(obs["kept"]),
+                                                  cnat(obs["errors"]), cnat(obs["single_count"]), nl(obs["single_remaining"]),
+                                                  cbool(obs["single_kept"]), cnat(obs["single_errors"]))
+    if kind == "dispatch" and case.get("loaded"):
+        written = clist([copt(None if om else cnat(w)) for w, om in zip(case["weights"], case["omit"])])
+        return "CL %s %s %s %s %s" % (written, _optlist(obs["got"]), _optlist(obs["ref"]),
+                                      clist([cnat(max(w, 0)) for w in (obs.get("loaded_weights") or [])]), cnat(case.get("balance_tol", 0)))
     if kind == "dispatch":
         return "CX %s %s %s" % (clist([cnat(w) for w in case["weights"]]), _optlist(obs["got"]), _optlist(obs["ref"]))
     if kind == "hash":
@@ -296,6 +352,8 @@ def _encode_ring(case, obs):
 
 
 def nontrivial(case, obs):
+    if case.get("kind") == "kvdel":
+        return any(a != b for a, b in zip(obs["owners"], obs["owners"][1:]))
     if case.get("kind") == "dispatch":
         return len(set(obs["got"])) >= 2
     if case.get("kind") == "hash":
@@ -313,11 +371,21 @@ def nontrivial(case, obs):
 
 
 def bucket(case, obs):
+    if case.get("kind") == "kvdel":
+        return ["kv-multi-key-del", "shards=%d" % case["nodes"],
+                "adjacent-owner-changes=%d" % sum(a != b for a, b in zip(obs["owners"], obs["owners"][1:]))]
+    if case.get("kind") == "dispatch" and case.get("loaded"):
+        return ["loaded:%s:%s" % (case["pkg"], case["loaded"]), "loaded:weight-omitted=%d/%d" % (sum(case["omit"]), len(case["omit"]))]
     if case.get("kind") == "dispatch":
         return ["dispatch:" + case["pkg"], "nodes=%d" % len(case["weights"])]
     if case.get("kind") == "hash":
         return ["hash-vs-murmur3"]
     out = ["ops=%d" % len(case["ops"])]
+    ops_ = case["ops"]
+    if len(ops_) >= 3 and ops_[1]["node"] == ops_[0]["node"] and ops_[0]["op"] != "remove":
+        out.append("first-node:" + ("removed" if ops_[1]["op"] == "remove" else "reweighted") + "-before-second-joins")
+    if any(o.get("quiet") for o in ops_):
+        out.append("ops-back-to-back(no lookup between)")
     if case.get("balance_tol"):
         out.append("balance-test")
     for o in case["ops"]:
@@ -356,6 +424,16 @@ def _final_members(case):
 
 
 def explain(case, obs):
+    if case.get("kind") == "kvdel":
+        return ("kv Store.Del(k1..k50) over %d shards: returned %s (single-key deletes: %s), named keys still present afterwards: %s, "
+                "other keys kept: %s, errors: %s -- every named key must be removed from ITS owner shard" % (
+                    case["nodes"], obs["count"], obs["single_count"], [case["keys"][i] for i in obs["remaining"]][:8], obs["kept"], obs["errors"]))
+    if case.get("kind") == "dispatch" and case.get("loaded"):
+        return ("%s configuration loaded from %s text with Weight omitted for nodes %s: loaded weights %s (an omitted Weight means the "
+                "documented default 100), or the dispatch differs from a ring built with those weights, or equally configured nodes "
+                "do not get roughly equal shares; shares %s" % (
+                    case["pkg"], case["loaded"], [i for i, o in enumerate(case["omit"]) if o], obs.get("loaded_weights"),
+                    [obs["got"].count(i) for i in range(len(case["weights"]))]))
     if case.get("kind") == "dispatch":
         return ("the %s built from the configured (address, weight) pairs dispatches some key to another node than the consistent "
                 "hash built directly from the same pairs (or reports absence although a node has positive weight)" % case["pkg"])
